@@ -60,7 +60,17 @@ def scope_specs(tier, seed):
 
 
 def units(tier, seed):
-    return common.doc_units(PROPERTY_ID, scope_specs(tier, seed), per_scope_blocks=8 if tier == "quick" else 16)
+    out = common.doc_units(PROPERTY_ID, scope_specs(tier, seed), per_scope_blocks=8 if tier == "quick" else 16)
+    # mark configurations with cross-type exclusion: node-mark / mark steps must keep mark sets canonical
+    from ..universe import schemas
+
+    fam = schemas.mark_family_specs([("A", "B", "C")])
+    step = 16 if tier == "quick" else 3
+    sel = fam[(seed % step)::step]
+    nb = 8
+    for b in range(nb):
+        out.append({"kind": "fmarks", "ids": [x[0] for x in sel[b::nb]], "name": f"fmarks#{b}/{nb}"})
+    return out
 
 
 def enumerate_steps(c, sc, d, T, u, pool):
@@ -98,7 +108,7 @@ def apply_outcome(step, node):
 def check_step(c, d, node, T, sd, res):
     model = c.model
     size = len(T)
-    case = {"schema": c.id, "doc": d, "step": sd}
+    case = {"schema": c.id, "spec": c.spec if c.id.startswith("fm") else None, "doc": d, "step": sd}
     res.transitions += 1
     try:
         step = adapters.build_step(c, sd)
@@ -148,8 +158,46 @@ def check_step(c, d, node, T, sd, res):
     return out
 
 
+def run_fmarks(u, res):
+    from ..universe import gen_docs, schemas, scopes
+
+    fam = dict(schemas.mark_family_specs([("A", "B", "C")]))
+    marks = [{"type": "A", "attrs": {"id": 0}}, {"type": "A", "attrs": {"id": 1}}, {"type": "B", "attrs": {}},
+             {"type": "C", "attrs": {}}]
+    nd = 0
+    for sid in u["ids"]:
+        c = adapters.Ctx(sid, fam[sid])
+        sc = scopes.scope(c.model, "fmarks", sid, 3)
+        sc["types"] = ["doc", "paragraph", "p_all", "p_A", "text", "atom"]
+        for d in gen_docs.gen_docs(c.model, sc):
+            node = c.node(d)
+            T = tk.doc_tokens(c.model, d)
+            res.states += 1
+            nd += 1
+            steps = list(gen_steps.mark_steps(len(T), marks))
+            for p in range(len(T) + 1):
+                for m in marks:
+                    steps.append({"stepType": "addNodeMark", "pos": p, "mark": m})
+                    steps.append({"stepType": "removeNodeMark", "pos": p, "mark": m})
+            for sd in steps:
+                engine.kick()
+                try:
+                    out = check_step(c, d, node, T, sd, res)
+                except engine.Watchdog:
+                    res.violate("c01.hang", {"schema": c.id, "spec": c.spec, "doc": d, "step": sd}, "watchdog", size=len(T))
+    if u["ids"]:
+        res.sample({"schema": u["ids"][0], "family": "F-marks", "steps": "all mark / node-mark steps"})
+    res.scopes.append({"unit": u["name"], "configurations": len(u["ids"]), "docs": nd, "completed": True})
+
+
 def run_unit(u):
     res = engine.UnitResult(PROPERTY_ID)
+    if u.get("kind") == "fmarks":
+        engine.arm()
+        run_fmarks(u, res)
+        engine.disarm()
+        res.evaluations = res.transitions
+        return res
     c, sc, docs = common.unit_docs(u)
     pool = common.pool_slices(u["sid"], u["donor"][0], u["donor"][1])
     engine.arm()
@@ -176,7 +224,7 @@ def run_unit(u):
 
 def replay(case):
     res = engine.UnitResult(PROPERTY_ID)
-    c = adapters.ctx(case["schema"], case.get("spec"))
+    c = adapters.Ctx(case["schema"], case["spec"]) if case.get("spec") else adapters.ctx(case["schema"])
     d = case["doc"]
     engine.arm()
     engine.kick(30)
